@@ -22,8 +22,8 @@ PY = "/venv/bin/python"
 KNOWN_FAIL = {"test_dynamic_timesteps", "test_dynamic_timesteps_memoized", "test_dynamic_timesteps_memoized_recursive", "test_prior_history"}
 
 
-def sh(cmd, cwd=None, timeout=3600):
-    p = subprocess.run(cmd, cwd=cwd, shell=isinstance(cmd, str), stdout=subprocess.PIPE, stderr=subprocess.STDOUT, text=True, timeout=timeout)
+def sh(cmd, cwd=None, timeout=3600, env=None):
+    p = subprocess.run(cmd, cwd=cwd, env=env, shell=isinstance(cmd, str), stdout=subprocess.PIPE, stderr=subprocess.STDOUT, text=True, timeout=timeout)
     return p.returncode, p.stdout
 
 
@@ -33,6 +33,7 @@ def main():
     ap.add_argument("--name")
     ap.add_argument("--props")
     ap.add_argument("--skip-suite", action="store_true")
+    ap.add_argument("--scratch", action="store_true", help="run the checks with VERIF_REPO=<patched scratch worktree> instead of patching /repo")
     a = ap.parse_args()
     src = os.path.abspath(a.src)
     meta = json.load(open(os.path.join(src, "meta.json")))
@@ -64,28 +65,32 @@ def main():
             summary = [l for l in os_.splitlines() if " passed" in l or " failed" in l]
             log["suite"] = dict(summary=summary[-1] if summary else os_[-200:], failed=sorted(failed), baseline_ok=(failed == KNOWN_FAIL and "161 passed" in (summary[-1] if summary else "")))
     finally:
-        sh(["git", "-C", "/repo", "worktree", "remove", "--force", wt])
+        if not a.scratch:
+            sh(["git", "-C", "/repo", "worktree", "remove", "--force", wt])
     log["valid_seed"] = bool(log["demo_clean"]["rc"] == 0 and log["apply"]["rc"] == 0 and log["demo_changed"]["rc"] != 0
                              and (a.skip_suite or log["suite"]["baseline_ok"]))
 
     # 2. run the checks against it
-    rc, o = sh(["git", "-C", "/repo", "status", "--porcelain"])
-    if o.strip():
-        print("refusing: /repo has uncommitted changes:\n" + o)
-        sys.exit(2)
     log["checks"] = {}
+    log["mode"] = "VERIF_REPO=scratch worktree" if a.scratch else "patch applied to /repo and undone"
+    env = dict(os.environ, VERIF_REPO=wt) if a.scratch else None
+    if not a.scratch:
+        rc, o = sh(["git", "-C", "/repo", "status", "--porcelain"])
+        if o.strip():
+            print("refusing: /repo has uncommitted changes:\n" + o)
+            sys.exit(2)
     try:
-        rca, oa = sh(["git", "-C", "/repo", "apply", patch])
+        rca, oa = (0, "") if a.scratch else sh(["git", "-C", "/repo", "apply", patch])
         if rca != 0:
             print("patch does not apply to /repo:", oa)
         else:
             for p in props:
                 t0 = time.time()
-                rcq, oq = sh(["./check", p, "--tier", "quick"], cwd=V, timeout=3600)
+                rcq, oq = sh(["./check", p, "--tier", "quick"], cwd=V, timeout=3600, env=env)
                 res = dict(quick_rc=rcq, quick_tail=[l for l in oq.splitlines() if l.startswith(("VIOLATION", "KNOWN", p))][-4:], quick_s=round(time.time() - t0, 1))
                 if rcq == 0:
                     t0 = time.time()
-                    rct, ot = sh(["./check", p, "--tier", "thorough"], cwd=V, timeout=7200)
+                    rct, ot = sh(["./check", p, "--tier", "thorough"], cwd=V, timeout=7200, env=env)
                     res.update(thorough_rc=rct, thorough_tail=[l for l in ot.splitlines() if l.startswith(("VIOLATION", "KNOWN", p))][-4:], thorough_s=round(time.time() - t0, 1))
                 # keep the replay the check produced (first VIOLATION line)
                 for l in oq.splitlines():
@@ -98,7 +103,10 @@ def main():
                         break
                 log["checks"][p] = res
     finally:
-        sh(["git", "-C", "/repo", "checkout", "--", "."])
+        if a.scratch:
+            sh(["git", "-C", "/repo", "worktree", "remove", "--force", wt])
+        else:
+            sh(["git", "-C", "/repo", "checkout", "--", "."])
     meta["validation"] = log
     meta["detected_by"] = [p for p, r in log["checks"].items() if r.get("quick_rc") == 1 or r.get("thorough_rc") == 1]
     json.dump(meta, open(os.path.join(out, "meta.json"), "w"), indent=1)
